@@ -87,4 +87,17 @@ PROPS = {
         "shards": {"quick": 4, "thorough": 16},
         "no_panic": ["read "],
     },
+    "C14": {
+        "modules": ["Capnp.Props.C14"],
+        "gen": True,
+        "rule": "messages of 1-5 segments of 0-8 words; Marshal and Encoder.Encode vs the model's framing; streams of 1-4 frames written by "
+                "an independent framer and read back through Decoder (with and without ReuseBuffer, reader chunkings from {1,2,3,5,7,8,9,17,4096} "
+                "and random, MaxMessageSize from {0,8,...,2^20}) whole and cut at a random byte or around a frame boundary; the same through the "
+                "packed framing; Unmarshal of damaged/truncated frames; hostile headers (segment counts 0..2^32-1, sizes up to 2^32-1 words) with an "
+                "allocation oracle (TotalAlloc delta of one Decode <= MaxMessageSize + 16 KiB). Non-trivial: all; distinct by hash.",
+        "trusted": COMMON_TRUSTED + ["go2lean translation rules (streamHeaderSize, Size.times)", "io.ReadFull / bufio semantics as modelled"],
+        "assumptions": ["the code's own segment-count constant is used: it accepts 513 segments (maxSeg <= 512), recorded, not raised"],
+        "shards": {"quick": 4, "thorough": 16},
+        "no_panic": ["frame "],
+    },
 }
